@@ -414,6 +414,10 @@ class HistGen:
 
     # --- whole script --------------------------------------------------------
     def flush(self):
+        if self.r.chance(1, 6):
+            # a flush nobody waits for (no callback)
+            self.count("flush-without-callback")
+            return "flush -"
         self.cb += 1
         self.count("flush")
         return f"flush {self.cb}"
